@@ -6,36 +6,35 @@ From Chibicc Require Import Spec.LinkSpec Model.Emit Proofs.EmitAsm Proofs.EmitP
 Import ListNotations.
 
 (* ---------- the hypothesis live_ok is satisfiable: chibicc's own marking is such a decision procedure ---------- *)
-Theorem model_live_ok ds : valid ds = true -> kb_inline_first ds = false ->
-  live_ok ds (model_live (ps_globals (parse ds))).
-Proof. intros H1 H2 n. apply (model_live_iff ds H1 H2). Qed.
+Theorem model_live_ok ds : valid ds = true -> live_ok ds (model_live (ps_globals (parse ds))).
+Proof. intros H1 n. apply (model_live_iff ds H1). Qed.
 
 Theorem emit_symtab_correct_closed ds o :
-  valid ds = true -> kb_extern_init ds = false -> kb_inline_first ds = false ->
+  valid ds = true -> kb_extern_init_static ds = false ->
   forall n, symtab_of (emit o (parse_flags ds)) n = to_result (spec_entry (model_live (ps_globals (parse ds))) ds o n).
-Proof. intros H1 H2 H3 n. apply emit_symtab_correct; try assumption. apply model_live_ok; assumption. Qed.
+Proof. intros H1 H2 n. apply emit_symtab_correct; try assumption. apply model_live_ok; assumption. Qed.
 
 (* any two decision procedures for emitted_fun give the same table *)
 Theorem spec_entry_live_irrelevant ds o l1 l2 n : live_ok ds l1 -> live_ok ds l2 ->
-  valid ds = true -> kb_extern_init ds = false -> kb_inline_first ds = false ->
+  valid ds = true -> kb_extern_init_static ds = false ->
   spec_entry l1 ds o n = spec_entry l2 ds o n.
 Proof.
-  intros L1 L2 H1 H2 H3.
-  pose proof (emit_symtab_correct ds o l1 H1 H2 H3 L1 n) as E1. pose proof (emit_symtab_correct ds o l2 H1 H2 H3 L2 n) as E2.
+  intros L1 L2 H1 H2.
+  pose proof (emit_symtab_correct ds o l1 H1 H2 L1 n) as E1. pose proof (emit_symtab_correct ds o l2 H1 H2 L2 n) as E2.
   rewrite E1 in E2. destruct (spec_entry l1 ds o n), (spec_entry l2 ds o n); cbn in E2; congruence.
 Qed.
 
 (* -fPIC changes how addresses are formed, never which symbols the object file has *)
 Theorem symtab_independent_of_pic ds fc :
-  valid ds = true -> kb_extern_init ds = false -> kb_inline_first ds = false ->
+  valid ds = true -> kb_extern_init_static ds = false ->
   forall n, symtab_of (emit (mkOpts fc true) (parse_flags ds)) n = symtab_of (emit (mkOpts fc false) (parse_flags ds)) n.
-Proof. intros H1 H2 H3 n. rewrite !emit_symtab_correct_closed by assumption. reflexivity. Qed.
+Proof. intros H1 H2 n. rewrite !emit_symtab_correct_closed by assumption. reflexivity. Qed.
 
 (* no valid unit makes the assembler complain about a symbol defined twice *)
 Theorem no_clash ds o n :
-  valid ds = true -> kb_extern_init ds = false -> kb_inline_first ds = false ->
+  valid ds = true -> kb_extern_init_static ds = false ->
   symtab_of (emit o (parse_flags ds)) n <> Clash.
-Proof. intros H1 H2 H3. rewrite emit_symtab_correct_closed by assumption. destruct (spec_entry _ ds o n); discriminate. Qed.
+Proof. intros H1 H2. rewrite emit_symtab_correct_closed by assumption. destruct (spec_entry _ ds o n); discriminate. Qed.
 
 (* ---------- gen_addr: the decision table ---------- *)
 Definition class_of (v : var) : ident_class :=
@@ -74,27 +73,50 @@ Corollary gen_addr_pic_global v : v_vla v = false -> v_local v = false -> v_tls 
   access_of (gen_addr true v) = Some A_got.
 Proof. intros H1 H2 H3. destruct (gen_addr_table true v) as [E _]. rewrite E. unfold preferred_access, class_of. rewrite H1, H2, H3. reflexivity. Qed.
 
-(* ---------- the exclusions are real ---------- *)
+(* ---------- the one exclusion is real ---------- *)
 Definition od_int (sc : sclass) (i : init) : objdecl := mkOD sc false 4 4 None false i.
 Definition od_ptr (sc : sclass) (i : init) : objdecl := mkOD sc false 8 8 None false i.
 Definition o_default : opts := mkOpts true false.
 
-(* extern int x1 = 5;    C11 6.9.2p1: an external definition.  chibicc: no symbol *)
-Definition bad_extern_init : list decl := [DObj 1 (od_int SC_extern IConst)].
-Theorem extern_init_refuted : valid bad_extern_init = true /\ kb_extern_init bad_extern_init = true /\
-  forall live, symtab_of (emit o_default (parse_flags bad_extern_init)) 1 = Absent
-               /\ spec_entry live bad_extern_init o_default 1 = Some (mkEntry B_global T_object P_data (Some 4%Z) (Some 4%Z)).
+(* static int x1; extern int x1 = 5;   C11 6.2.2p4: internal linkage, so a LOCAL object.  chibicc: GLOBAL *)
+Definition bad_extern_init_static : list decl := [DObj 1 (od_int SC_static INone); DObj 1 (od_int SC_extern IConst)].
+Theorem extern_init_static_refuted : valid bad_extern_init_static = true /\ kb_extern_init_static bad_extern_init_static = true /\
+  forall live, symtab_of (emit o_default (parse_flags bad_extern_init_static)) 1 = Present (mkEntry B_global T_object P_data (Some 4%Z) (Some 4%Z))
+               /\ spec_entry live bad_extern_init_static o_default 1 = Some (mkEntry B_local T_object P_data (Some 4%Z) (Some 4%Z)).
 Proof. split; [reflexivity|]. split; [reflexivity|]. intros live. split; reflexivity. Qed.
 
-(* inline long x1(void) {..}  extern inline long x1(void);    6.7.4p7: an external definition.  chibicc: nothing
-   (a local function if it were used) *)
-Definition bad_inline_first : list decl := [DFun 1 SC_none true 3 (Some []); DFun 1 SC_extern true 3 None].
-Theorem inline_first_refuted : valid bad_inline_first = true /\ kb_inline_first bad_inline_first = true /\
-  forall live, symtab_of (emit o_default (parse_flags bad_inline_first)) 1 = Absent
-               /\ spec_entry live bad_inline_first o_default 1 = Some (mkEntry B_global T_func P_text None None).
-Proof. split; [reflexivity|]. split; [reflexivity|]. intros live. split; reflexivity. Qed.
+(* ---------- repaired in /repo (Update 3): the former witnesses, now positive ---------- *)
+(* extern int x1 = 5;   (2049a24: a definition) *)
+Definition ex_extern_init : list decl := [DObj 1 (od_int SC_extern IConst)].
+Example extern_init_now_defined : valid ex_extern_init = true /\ no_known_bad ex_extern_init = true /\
+  symtab_of (emit o_default (parse_flags ex_extern_init)) 1 = Present (mkEntry B_global T_object P_data (Some 4%Z) (Some 4%Z))
+  /\ spec_entry (closure_live ex_extern_init) ex_extern_init o_default 1 = Some (mkEntry B_global T_object P_data (Some 4%Z) (Some 4%Z)).
+Proof. vm_compute. repeat split; reflexivity. Qed.
+(* inline long x1(void) {..}  extern inline long x1(void);   (85373f4: an external definition, GLOBAL);
+   inline long x2(void); long x2(void) {..} likewise; a lone `inline long x3(void) {..}` stays an unused inline definition *)
+Definition ex_inline_first : list decl :=
+  [DFun 1 SC_none true 3 (Some []); DFun 1 SC_extern true 3 None;
+   DFun 2 SC_none true 3 None; DFun 2 SC_none false 3 (Some []);
+   DFun 3 SC_none true 3 (Some [])].
+Example inline_first_now_external : valid ex_inline_first = true /\ no_known_bad ex_inline_first = true /\
+  map (fun n => symtab_of (emit o_default (parse_flags ex_inline_first)) n) [1; 2; 3]%nat =
+    [Present (mkEntry B_global T_func P_text None None); Present (mkEntry B_global T_func P_text None None); Absent]
+  /\ map (fun n => spec_entry (closure_live ex_inline_first) ex_inline_first o_default n) [1; 2; 3]%nat =
+    [Some (mkEntry B_global T_func P_text None None); Some (mkEntry B_global T_func P_text None None); None].
+Proof. vm_compute. repeat split; reflexivity. Qed.
+(* static inline long x1(void) { static int c; "ab"; }   long x2(void) { static int d = 1; }    x1 is never used:
+   (62ebd1d) its static c is not placed; its string and __func__ arrays still are; x2's static is *)
+Definition ex_dead_static : list decl :=
+  [DFun 1 SC_static true 3 (Some [BStatic false 4 4 false false; BString 3]); DFun 2 SC_none false 3 (Some [BStatic false 4 4 false true])].
+Example dead_static_not_placed : valid ex_dead_static = true /\
+  anon_placements (emit o_default (parse_flags ex_dead_static)) =
+    [mkAnon P_data 3 1; mkAnon P_data 3 1; mkAnon P_data 3 1; mkAnon P_data 3 1; mkAnon P_data 3 1; mkAnon P_data 4 4]
+  /\ spec_anon (closure_live ex_dead_static) ex_dead_static =
+    [mkAnon P_data 3 1; mkAnon P_data 3 1; mkAnon P_data 3 1; mkAnon P_data 3 1; mkAnon P_data 3 1; mkAnon P_data 4 4]
+  /\ sym_lookup (asm P_text None (emit o_default (parse_flags ex_dead_static))) (Anon 2) = Absent.
+Proof. vm_compute. repeat split; reflexivity. Qed.
 
-(* ---------- repaired in /repo (Update 2): the former witnesses, now positive ---------- *)
+(* ---------- repaired in /repo (Update 2) ---------- *)
 (* static inline long x1(void) {..}  static inline long x2(void) {..}  void *x3 = &x1;
    (f841ff9: current_fn is reset, the initializer marks x1 as a root: x1 is emitted, x2 is not) *)
 Definition ex_fun_addr : list decl :=
@@ -118,7 +140,7 @@ Proof. vm_compute. repeat split; reflexivity. Qed.
 Definition ex_static_tls : list decl := [DFun 1 SC_none false 3 (Some [BStatic true 4 4 false false; BStatic true 4 4 false true])].
 Example static_tls_local_now_tls : valid ex_static_tls = true /\
   anon_placements (emit o_default (parse_flags ex_static_tls)) = [mkAnon P_data 3 1; mkAnon P_data 3 1; mkAnon P_tbss 4 4; mkAnon P_tdata 4 4]
-  /\ spec_anon ex_static_tls = [mkAnon P_data 3 1; mkAnon P_data 3 1; mkAnon P_tbss 4 4; mkAnon P_tdata 4 4]
+  /\ spec_anon (closure_live ex_static_tls) ex_static_tls = [mkAnon P_data 3 1; mkAnon P_data 3 1; mkAnon P_tbss 4 4; mkAnon P_tdata 4 4]
   /\ sym_lookup (asm P_text None (emit o_default (parse_flags ex_static_tls))) (Anon 2) = Present (mkEntry B_local T_tls P_tbss (Some 4%Z) (Some 4%Z))
   /\ existsb (fun d => match d with D_insn (I_add_tpoff (Anon 2)) => true | _ => false end) (emit (mkOpts true false) (parse_flags ex_static_tls)) = true
   /\ existsb (fun d => match d with D_insn (I_tlsgd (Anon 2)) => true | _ => false end) (emit (mkOpts true true) (parse_flags ex_static_tls)) = true.
@@ -168,7 +190,7 @@ Definition demo_table (o : opts) : list (nat * lookup_result) :=
   map (fun n => (n, symtab_of (emit o (parse_flags demo)) n)) [1; 2; 3; 4; 5; 6; 7; 8; 10; 11; 12; 13; 99]%nat.
 
 Example emit_nonvacuous :
-  valid demo = true /\ kb_extern_init demo = false /\ kb_inline_first demo = false /\ no_known_bad demo = true
+  valid demo = true /\ no_known_bad demo = true
   /\ demo_table (mkOpts true false) =
      [ (1, Present (mkEntry B_global T_object P_common (Some 4%Z) (Some 4%Z)));
        (2, Present (mkEntry B_local T_object P_bss (Some 4%Z) (Some 4%Z)));
